@@ -67,7 +67,7 @@ def run_one(it, tier, run_tests, keep):
         env['NUMQI_SRC'] = os.path.join(scratch, 'python')
         env['VERIF_EVIDENCE_DIR'] = os.path.join(scratch, 'evidence')
         env['VERIF_REPLAY_DIR'] = os.path.join(scratch, 'replay')
-        use_tier = tier or it.get('tier', 'quick')
+        use_tier = tier or it.get('tier') or 'quick'
         q = subprocess.run([os.path.join(VERIF, 'check'), it['prop'], '--tier', use_tier], capture_output=True, text=True, env=env, cwd=VERIF)
         keys = re.findall(r'key=(\S+)', q.stdout)
         status = {0: 'MISSED', 1: 'CAUGHT', 2: 'BROKEN'}.get(q.returncode, f'exit{q.returncode}')
